@@ -483,7 +483,7 @@ class Sim(object):
                         "resp": bool(s["respawn"]), "auto": bool(s["autostart"]), "prio": s["priority"],
                         "ssig": s["stop_signal"], "sch": bool(s["stop_children"]),
                         "mage": s["max_age"], "hup": bool(s["send_hup"]), "od": bool(s["on_demand"]),
-                        "ver": int(s.get("ver", 1)),
+                        "ver": int(s.get("ver", 1)), "maget": int(s["max_age"]) * 10,
                         "hooks": [{"h": h, "o": (v[0][:-5] if v[0].endswith("+slow") else v[0]) if isinstance(v[0], str) else "seq",
                                    "ig": bool(v[1])}
                                   for h, v in sorted((s.get("hooks") or {}).items())]}
@@ -491,9 +491,13 @@ class Sim(object):
 
     # ------------------------------------------------------------------ clock
     def strict_time(self):
-        t = self.loop.vnow
+        """time.time() as circus sees it: virtual time plus a reading counter (a real clock never reads the same
+        value twice, and a LATER reading is always LARGER: `age() > max_age` is true from the instant the age
+        reaches max_age on the virtual grid, deterministically)"""
+        self._strict_n = getattr(self, "_strict_n", 0) + 1
+        t = self.loop.vnow + self._strict_n * 1e-9
         if t <= self._last_strict:
-            t = self._last_strict + 1e-6
+            t = self._last_strict + 1e-9
         self._last_strict = t
         return t
 
@@ -751,8 +755,9 @@ class Sim(object):
                     out.append({"k": "sch", "v": 1 if str(val).lower() in ("true", "1", "t", "y", "yes", "on") else 0})
                 elif key == "send_hup":
                     out.append({"k": "hup", "v": 1 if val else 0})
-                elif key in ("cmd", "args", "env", "working_dir", "shell") or (key in ("max_age", "max_age_variance")
-                                                                              and int(val) == 0):
+                elif key == "max_age":
+                    out.append({"k": "mage", "v": int(val) * 10})
+                elif key in ("cmd", "args", "env", "working_dir", "shell") or (key == "max_age_variance" and int(val) == 0):
                     out.append({"k": "act1", "v": 0})
                 elif key in ("max_retry", "retry_in", "respawn", "copy_env"):
                     out.append({"k": "noop", "v": 0})
